@@ -1,7 +1,7 @@
 (* Props/C18.v -- zero-crossing search finds real crossings.
    Property theorems only; proofs are in Audio/ZeroCrossProofs.v. *)
 From Coq Require Import ZArith Lia.
-From PraatIO Require Import Audio.ZeroCross Audio.ZeroCrossProofs.
+From PraatIO Require Import Audio.ZeroCross Audio.ZeroCrossProofs Textgrid.TgModel Textgrid.TgProofs Textgrid.TgZc.
 Open Scope Z_scope.
 
 (* findNearestZeroCrossing is total for every recording, target and step: when it returns, the
@@ -51,3 +51,19 @@ Example C18_example :
   find_zc 4 [5; 3; 1; -2; -4; 6; 0; 7] 16 10 = Ok 8 /\ find_zc 4 [5; 3; 1; 2; 4; 6; 1; 7] 16 10 = Err FindZeroCrossingError
   /\ find_zc 4 [5; 3] 4 7 = Err ArgumentError.
 Proof. vm_compute. repeat split; reflexivity. Qed.
+
+(* tgBoundariesToZeroCrossings (model tg_zc, compared with the script in Coq): tiers, names and order kept; a tier of
+   a kind that is not adjusted is untouched; every other tier is that tier with each of its times replaced by what
+   findNearestZeroCrossing returns for it (so by the theorems above: a genuine crossing on a sample, or the
+   documented error) ... *)
+Theorem C18_tg_zero_crossings_tierwise K s st adjP adjI g g' :
+  NoDup (names g) -> tg_zc K s st adjP adjI g = Ok g' ->
+  Forall2 (zc_rel K s st adjP adjI) (tiers g) (tiers g').
+Proof. exact (tg_zc_tierwise K s st adjP adjI g g'). Qed.
+Print Assumptions C18_tg_zero_crossings_tierwise.
+
+(* ... keeping every tier's name and its labels: the same multiset, entries that moved past each other may swap *)
+Theorem C18_tg_zero_crossings_labels K s st t t' :
+  zc_tier K s st t = Ok t' -> tname t' = tname t /\ Permutation.Permutation (tlabels t') (map strip (tlabels t)).
+Proof. intro H. split; [exact (zc_tier_name K s st t t' H)|exact (zc_tier_labels K s st t t' H)]. Qed.
+Print Assumptions C18_tg_zero_crossings_labels.
